@@ -300,7 +300,7 @@ func SessionC16(t *tape.Tape) *core.RunResult {
 	g.base, _ = rules.NewGame(st)
 	randomLine(t, g.base, t.Range(6, 30), t.Choose(4))
 	g.game, _ = rules.NewGame(startFEN)
-	nCmds := t.Range(4, 40)
+	nCmds := t.Range(4, core.Scale(40, 120))
 	endWith := t.Choose(3) // 0 EOF, 1 quit, 2 EOF/quit mid-search as soon as a search is live
 	sent := 0
 
